@@ -56,11 +56,8 @@ def check_config(cfg, w, rep):
             if lf.path in R.commits:
                 rep.ob(cfg, "a-who-may-index", "%s->%s" % (fn_key(lf), short(g.path)), "index insertion called from a COMMIT")
                 continue
-            optt = w.sym.of_operand(b, t.args[2])
-            tomb = False
-            if optt[0] == "agg" and optt[1] == "put::WriteOpts":
-                sri = dict(optt[3]).get("sri")
-                tomb = sri is not None and sri[0] == "agg" and sri[2] == "None"
+            optt = options_value(w, b, t.args[2])
+            tomb = is_tombstone_options(optt)
             if tomb:
                 rep.ob(cfg, "a-who-may-index", "%s->%s" % (fn_key(lf), short(g.path)), "index insertion of a constant tombstone")
             else:
